@@ -660,7 +660,25 @@ impl<'a, 'b, 'ast> Visit<'ast> for Rewriter<'a, 'b> {
             return; // nested items are kept verbatim
         }
         if let Stmt::Local(l) = s {
+            if let (Pat::Struct(ps), Some(init)) = (&l.pat, &l.init) {
+                let is_ref = match &*init.expr {
+                    Expr::Path(p) => p.path.get_ident().map(|i| self.ref_idents.contains(&i.to_string())).unwrap_or(false),
+                    Expr::Reference(_) => true,
+                    _ => false,
+                };
+                if is_ref {
+                    for f in ps.fields.iter() {
+                        if let Pat::Ident(pi) = &*f.pat {
+                            self.ref_idents.insert(pi.ident.to_string());
+                        }
+                    }
+                }
+            }
             if let (Pat::Ident(pi), Some(init)) = (&l.pat, &l.init) {
+                // `let x = &expr;` binds a reference
+                if matches!(&*init.expr, Expr::Reference(_)) {
+                    self.ref_idents.insert(pi.ident.to_string());
+                }
                 let t = norm_ws(self.fx.text(init.expr.span()));
                 if t.ends_with("thread_rng()") {
                     self.rng_idents.insert(pi.ident.to_string());
@@ -762,6 +780,13 @@ impl<'a, 'b, 'ast> Visit<'ast> for Rewriter<'a, 'b> {
                                 let n = self.fx.text(ta.len.span());
                                 self.edit(lo, hi, format!("arr_try_from::<{{ {} }}>", n), "R12");
                             }
+                        }
+                    }
+                    if self.fx.ops && ps == "Digest::digest" {
+                        if let Some(q) = &p.qself {
+                            let (lo, hi) = self.fx.rng(c.func.span());
+                            let ty = norm_ws(self.fx.text(q.ty.span()));
+                            self.edit(lo, hi, format!("digest_shim::<{}, _>", ty), "R3");
                         }
                     }
                     if self.fx.ops && ps == "Integer::from" {
@@ -913,6 +938,16 @@ impl<'a, 'b> Rewriter<'a, 'b> {
             self.edit(lhi, rlo, "), &(".to_string(), "R9");
             if rhi == hi { self.edit_close(hi, "))".to_string(), "R9"); } else { self.edit(rhi, hi, "))".to_string(), "R9"); }
         } else if let Some(name) = arith {
+            // String concatenation `s + &x.to_string()` -> str_cat(s, &x.to_string())
+            let is_to_string_ref = |e: &Expr| -> bool {
+                if let Expr::Reference(r) = e {
+                    if let Expr::MethodCall(m) = &*r.expr {
+                        return m.method == "to_string";
+                    }
+                }
+                false
+            };
+            let name = if matches!(b.op, BinOp::Add(_)) && is_to_string_ref(&b.right) { "str_cat" } else { name };
             if self.is_refish(&b.left) || self.is_refish(&b.right) {
                 self.edit(lo, llo, format!("{}((", name), "R9");
                 self.edit(lhi, rlo, "), (".to_string(), "R9");
